@@ -1582,9 +1582,9 @@ pub const MATRIX_CONSTRUCTS: [(&str, &str); 31] = [
     ("obj-op", "obj + 4"),
     ("call0", "f0()"),
     ("call2", "f2(1, 2)"),
-    ("print", "print(\"p~;\", 1)"),
-    ("object", "object begin let a = 1; end"),
-    ("object-ext", "object extends obj begin function k() -> 1; end"),
+    ("print", "(print(\"p~;\", 1))"),
+    ("object", "(object begin let a = 1; end)"),
+    ("object-ext", "(object extends obj begin function k() -> 1; end)"),
     ("arith", "1 + 2 * 3"),
     ("tracers", "t(1) + t(2)"),
     ("local-read", "begin let Q = 6; Q; Q end"),
